@@ -35,7 +35,7 @@ class Check:
 
     def __init__(self, tier, seed):
         self.tier, self.seed = tier, seed
-        vlib.STREAM_TIMEOUT = 420 if tier == "quick" else 3 * 3600
+        vlib.STREAM_TIMEOUT = 900 if tier == "quick" else 3 * 3600
         self.wd = vlib.workdir(self.pid)
         self.features = {}
         self.samples = []
@@ -652,6 +652,20 @@ class C19(Check):
                         oracle = f"probe {op} returned {res}, latest admitted entry is {known[1]}"
                 elif known is not None and known[0] == key:
                     oracle = f"probe {op} missed although {known[1]} is stored under that key"
+            elif p[0] == "f":
+                # fill: consecutive keys; only the number of occupied slots is judged (whether a same-search
+                # non-exact entry replaces another one in a shared slot is not something C19 speaks about)
+                base, cnt = int(p[1], 16), int(p[2])
+                feats.add("fill")
+                if n:
+                    for i in range(cnt):
+                        key = (base + i) % (1 << 64)
+                        slot = key % n
+                        if slot not in slots:
+                            occ += 1
+                        slots[slot] = (key, ("U", "7", "2", str(gen), "-"))
+                    if 1000 * occ // n >= 40:
+                        feats.add("fill>=4%")
             elif p[0] == "n":
                 gen = (gen + 1) % 256
                 feats.add("new-search")
@@ -787,6 +801,9 @@ class C14(Check):
         # previous search thread still in its tail) is gone from the GUI's clock: hook H3 holds the thread for more
         # than the hard limit (half the clock with one move to go) before it may take the state lock
         cases.append((self.WALL_POSITIONS[2], "go wtime 2000 btime 2000 movestogo 1", 2000, "late-start:1200"))
+        # the first move of a new game on the largest table: whatever `ucinewgame` has to do must not be charged
+        # to the mover's clock
+        cases.append(("position startpos", "go wtime 200 btime 200", 200, "bighash-newgame"))
         return cases
 
     def extra_phase(self, harness_bin):
@@ -808,6 +825,13 @@ class C14(Check):
                 try:
                     eng.send("uci"); eng.read_until(lambda l: l == "uciok", 10)
                     eng.send("isready"); eng.read_until(lambda l: l == "readyok", 10)
+                    if shape == "bighash-newgame":
+                        eng.send("setoption name Hash value 1024")
+                        eng.send("isready"); eng.read_until(lambda l: l == "readyok", 30)
+                        eng.send("position startpos"); eng.send("go depth 3")
+                        eng.read_until(lambda l: l.startswith("bestmove"), 30)
+                        eng.send("ucinewgame")
+                        eng.send("isready"); eng.read_until(lambda l: l == "readyok", 30)
                     eng.send(pos)
                     eng.send("isready"); eng.read_until(lambda l: l == "readyok", 10)
                     t0 = time.time()
